@@ -18,7 +18,7 @@ ASSUMPTIONS = [
     "the parent link of the copy's root is not constrained by the statement",
     "sharing of immutable values (strings) between copy and original is not 'mutable state'",
 ]
-REQUIRED = ["cross_session_documents", "copies", "edits_on_copy", "edits_on_original", "aliasing_checks", "inner_node_copies", "second_generation_copies", "nodes_in_one_copy", "trees_with_unregistered_nodes", "deep_chain_copies", "trees_with_stale_parent_links", "wide_trees", "trees_with_repeated_id_strings", "original_registry_entries_rechecked", "copies_with_shared_nsmap_in_original"]
+REQUIRED = ["cross_session_documents", "copies", "edits_on_copy", "edits_on_original", "aliasing_checks", "inner_node_copies", "second_generation_copies", "trees_with_a_default_namespace", "nodes_in_one_copy", "trees_with_unregistered_nodes", "deep_chain_copies", "trees_with_stale_parent_links", "wide_trees", "trees_with_repeated_id_strings", "original_registry_entries_rechecked", "copies_with_shared_nsmap_in_original"]
 EXHAUSTIVE = {"quick": False, "thorough": False}
 
 EDITS = ("content", "tail", "prefix", "name", "attr_add", "attr_overwrite", "attr_remove", "extras_add", "ns_declare", "ns_redeclare",
@@ -185,6 +185,11 @@ def one_tree(ctx, size, i):
         emlkit.discard(t)
         t = nodegen.wide_tree(rng, names=nodegen.NAMES[:6] if rng.random() < 0.5 else None)
         ctx.count("wide_trees")
+    if i % 5 == 2:
+        # a default namespace (the key None, as the XML importer stores xmlns="...") on the root or on an inner node
+        x = rng.choice(snapshot.walk(t))
+        x.add_namespace(None, rng.choice(["http://www.xml-cml.org/schema/stmml-1.2", "urn:default", ""]))
+        ctx.count("trees_with_a_default_namespace")
     if i % 9 == 7:
         # a tree with a past: some listed nodes have no parent link or one that names a node elsewhere (children list edited
         # directly, node taken over from another parent) - the parent links of the COPY point inside the copy all the same
@@ -357,7 +362,7 @@ def big_copy(ctx, n_items):
 def run(ctx, params):
     cross_session(ctx)
     ctx.case(deep_chain_copy, ctx, 400, seconds=120.0)
-    ctx.case(big_copy, ctx, 4200 if ctx.tier == "quick" else 17000, seconds=300.0)
+    ctx.case(big_copy, ctx, 16500 if ctx.tier == "quick" else 33000, seconds=600.0)    # (more than 2**16 nodes in one copy)
     for i in range(params["trees"]):
         ctx.case(one_tree, ctx, ctx.rng.choice([1, 2, 3, 5, 8, 12, 25, 60]), i, seconds=60.0)
 
